@@ -391,6 +391,13 @@ struct StreamEngine : Engine {
 					gtoks.push_back(tok);
 				s2 += tok;
 			}
+			if (giv.ifmts.empty() && giv.kind == inv::K_DATE && r.chance(1, 6)) {
+				/* a day-of-year date is looked for at the end of a line only */
+				std::string tok = inv::fmt_value("%Y-%j", inv::rand_civ(r));
+				if (std::find(gtoks.begin(), gtoks.end(), tok) == gtoks.end())
+					gtoks.push_back(tok);
+				return s2 + " " + tok;
+			}
 			if (r.chance(1, 2)) {
 				std::string lit = safe_lit(r, (size_t)r.below(8), false);
 				while (!lit.empty() && lit.back() == '\r')
@@ -476,6 +483,27 @@ struct StreamEngine : Engine {
 		if (nlines && r.chance(1, 25))
 			in.insert(0, "\n");	/* first byte is a newline */
 		p.input = in;
+		/* a switch may be given more than once and in either spelling */
+		if (r.chance(1, 12)) {
+			for (size_t i = 1; i < p.argv.size(); i++)
+				if (p.argv[i] == "-S" || p.argv[i] == "-E") {
+					bool sed = p.argv[i] == "-S";
+					unsigned k = (unsigned)r.below(4);
+					if (k == 0)
+						p.argv.insert(p.argv.begin() + (long)i, p.argv[i]);
+					else if (k == 1)
+						p.argv[i] = sed ? "--sed-mode" : "--empty-mode";
+					else if (k == 2)
+						p.argv[i] = sed ? "-SS" : "-EE";
+					else {
+						p.argv.insert(p.argv.begin() + (long)i, sed ? "--sed-mode" : "--empty-mode");
+						p.argv.insert(p.argv.begin() + (long)i, p.argv[i + 1]);
+					}
+					if (p.par.count("pos_at"))
+						p.par["pos_at"] = std::to_string(p.ipar("pos_at") + (k == 0 ? 1 : k == 3 ? 2 : 0));
+					break;
+				}
+		}
 		for (auto &t : gtoks) {
 			Op o;
 			o.kind = "tok";
@@ -600,7 +628,7 @@ struct StreamEngine : Engine {
 		size_t pos = (size_t)base.ipar("pos_at", 0), removed = 0;
 		for (size_t i = 0; i < base.argv.size(); i++) {
 			const std::string &x = base.argv[i];
-			if (i >= 1 && i <= 2 && i < pos && (x == "-S" || x == "-E")) {
+			if (i >= 1 && i < pos && (x == "-S" || x == "-E" || x == "-SS" || x == "-EE" || x == "--sed-mode" || x == "--empty-mode")) {
 				removed++;
 				continue;
 			}
@@ -656,7 +684,9 @@ struct StreamEngine : Engine {
 			if (o.kind == "tok" && !o.s.empty())
 				toks.push_back(&o.s);
 		std::sort(toks.begin(), toks.end(), [](const std::string *a, const std::string *b) { return a->size() > b->size(); });
-		bool empty_mode = std::find(p.argv.begin(), p.argv.end(), "-E") != p.argv.end();
+		bool empty_mode = false;
+		for (auto &a : p.argv)
+			empty_mode |= a == "-E" || a == "-EE" || a == "--empty-mode";
 		exp.clear();
 		size_t i = 0, n = c.size(), nt = 0;
 		while (i < n) {
@@ -877,7 +907,7 @@ struct StreamEngine : Engine {
 					v.detail = "line " + cquote(c, 80) + " came out as " + cquote(t[i], 80) + ", expected " + cquote(exp, 80);
 					return v;
 				}
-			} else if (std::none_of(c.begin(), c.end(), isdig) && std::find(p.argv.begin(), p.argv.end(), "-E") == p.argv.end()) {
+			} else if (std::none_of(c.begin(), c.end(), isdig) && std::none_of(p.argv.begin(), p.argv.end(), [](const std::string &a) { return a == "-E" || a == "-EE" || a == "--empty-mode"; })) {
 				if (collect)
 					st.named["oracle3_literal_lines"]++;
 				if (t[i] != c) {
